@@ -2,11 +2,18 @@ package ast
 
 import (
 	"strconv"
+	"sync"
 )
 
 var capture_group_number int = 0
 
+// capture_group_number is shared by every parse, so parses are serialised
+var capture_group_lock sync.Mutex
+
 func parse(tokens []*Token) ([]AstCommand, error) {
+	capture_group_lock.Lock()
+	defer capture_group_lock.Unlock()
+
 	commands := []AstCommand{}
 	capture_group_number = 0
 	token_index := 0
